@@ -262,7 +262,11 @@ func Accept(fd int) (int, syscall.Sockaddr, error) {
 //go:norace
 func Connect(fd int, sa syscall.Sockaddr) error {
 	ptf("connect(%d)", fd)
-	return syscall.Connect(fd, sa)
+	err := syscall.Connect(fd, sa)
+	if err == syscall.EINPROGRESS && vsched.Active() {
+		settleConnect(fd)
+	}
+	return err
 }
 
 //go:norace
@@ -679,4 +683,96 @@ func HConnectUnix(name string) (int, error) {
 	}
 	err = syscall.Connect(fd, &syscall.SockaddrUnix{Name: "@" + name})
 	return fd, err
+}
+
+// settleConnect waits (in real time, bounded) until the kernel has decided a loopback TCP
+// handshake, so that every later readiness probe sees the same state on every replay. A SYN
+// that is dropped (full backlog) stays undecided; the bound then simply expires.
+//
+//go:norace
+func settleConnect(fd int) {
+	p := pollfd{fd: int32(fd), events: 4} // POLLOUT
+	for i := 0; i < 200; i++ {
+		p.revents = 0
+		n, _, _ := syscall.RawSyscall(syscall.SYS_POLL, uintptr(unsafe.Pointer(&p)), 1, 0)
+		if int(n) > 0 && p.revents != 0 {
+			return
+		}
+		ts := syscall.Timespec{Nsec: 10000}
+		syscall.RawSyscall(syscall.SYS_NANOSLEEP, uintptr(unsafe.Pointer(&ts)), 0, 0)
+	}
+}
+
+// HListenTCP creates a non-blocking loopback TCP listener on an ephemeral port (harness-owned).
+//
+//go:norace
+func HListenTCP(backlog int) (fd, port int) {
+	pt("H:listen-tcp")
+	fd, err := syscall.Socket(syscall.AF_INET, syscall.SOCK_STREAM|syscall.SOCK_NONBLOCK|syscall.SOCK_CLOEXEC, 0)
+	if err != nil {
+		panic(err)
+	}
+	if err := syscall.Bind(fd, &syscall.SockaddrInet4{Addr: [4]byte{127, 0, 0, 1}}); err != nil {
+		panic(err)
+	}
+	if err := syscall.Listen(fd, backlog); err != nil {
+		panic(err)
+	}
+	sa, _ := syscall.Getsockname(fd)
+	port = sa.(*syscall.SockaddrInet4).Port
+	if led != nil {
+		led.created(fd, "tcp-listener", "harness")
+	}
+	return fd, port
+}
+
+// HAccept accepts one pending connection on a harness listener (-1 if none).
+//
+//go:norace
+func HAccept(lfd int) int {
+	pt("H:accept")
+	nfd, _, err := syscall.Accept4(lfd, syscall.SOCK_NONBLOCK|syscall.SOCK_CLOEXEC)
+	if err != nil {
+		return -1
+	}
+	if led != nil {
+		led.created(nfd, "peer-accepted", "harness")
+	}
+	return nfd
+}
+
+// HConnectTCP starts a harness-side connection to the port (used to fill a backlog); returns the fd.
+//
+//go:norace
+func HConnectTCP(port int) int {
+	pt("H:connect-tcp")
+	fd, err := syscall.Socket(syscall.AF_INET, syscall.SOCK_STREAM|syscall.SOCK_NONBLOCK|syscall.SOCK_CLOEXEC, 0)
+	if err != nil {
+		panic(err)
+	}
+	if led != nil {
+		led.created(fd, "filler", "harness")
+	}
+	err = syscall.Connect(fd, &syscall.SockaddrInet4{Addr: [4]byte{127, 0, 0, 1}, Port: port})
+	if err == syscall.EINPROGRESS {
+		settleConnect(fd)
+	}
+	return fd
+}
+
+// HResetClose closes with SO_LINGER 0 so that the peer receives a RST.
+//
+//go:norace
+func HResetClose(fd int) {
+	syscall.SetsockoptLinger(fd, syscall.SOL_SOCKET, syscall.SO_LINGER, &syscall.Linger{Onoff: 1, Linger: 0})
+	HClose(fd)
+}
+
+// HClosedPort returns a loopback port on which nothing listens.
+//
+//go:norace
+func HClosedPort() int {
+	fd, port := HListenTCP(1)
+	HClose(fd)
+	return port
 }
